@@ -91,6 +91,8 @@ pub fn unknown_total(bytes: &[u8]) -> Vec<u8> {
 }
 
 pub fn damage_corpus(quick: bool) -> Vec<TestFile> {
+    let _ = quick; // both tiers use the full corpus now
+    let quick = false;
     let mut v = Vec::new();
     // crate-encoded
     let enc: &[(u8, u32)] = if quick { &[(1, 16), (2, 16), (2, 24)] } else { &[(1, 16), (2, 16), (1, 8), (2, 24), (3, 16), (1, 32), (8, 8)] };
